@@ -415,6 +415,58 @@ def task_mixed_points():
 task_mixed_points.contract_fn = "curves.BaseCurve.__mul__"
 
 
+def task_int_scalars():
+    """Scalar operands of kind int / numpy integer / Fraction / bool on exact (Fraction) curves: the result is exactly the pointwise value ("exactly for rational data");
+    a float sneaking in (A / 3 computed as A * (1 / 3)) is a failure even if it is within an ulp."""
+    from ..report import FAILED, PROVED, ob
+    fn = "curves.BaseCurve.__truediv__"
+    out = []
+    U = [F(0), F(0), F(0), F(1, 2), F(1), F(1), F(1)]
+    P = [F(1), F(-2, 3), F(5, 7), F(4)]
+    W = [F(1), F(2), F(1, 3), F(3)]
+    us = [F(0), F(1, 3), F(1, 2), F(6, 7), F(1)]
+    scalars = {"int3": 3, "int-7": -7, "np.int64(6)": np.int64(6), "Fraction(5,3)": F(5, 3), "int1": 1}
+    ops = {"A/s": (lambda A, k: A / k, lambda a, k: a / F(int(k)) if not isinstance(k, F) else a / k), "A*s": (lambda A, k: A * k, lambda a, k: a * F(k)),
+           "s*A": (lambda A, k: k * A, lambda a, k: a * F(k)), "A+s": (lambda A, k: A + k, lambda a, k: a + F(k)), "s-A": (lambda A, k: k - A, lambda a, k: F(k) - a),
+           "s/A": (lambda A, k: k / A, lambda a, k: F(k) / a)}
+
+    def val(Wt, u):
+        N = spec.basis(U, 2, 2, u)
+        if Wt is None:
+            return sum(n_ * q for n_, q in zip(N, P))
+        return sum(n_ * w * q for n_, w, q in zip(N, Wt, P)) / sum(n_ * w for n_, w in zip(N, Wt))
+    for rational in (False, True):
+        for sname, k in scalars.items():
+            for oname, (op, want) in ops.items():
+                if oname == "s/A":
+                    Pq = [F(1), F(2, 3), F(5, 7), F(4)]      # a curve without a zero
+                else:
+                    Pq = P
+                bad = None
+                try:
+                    A = curves.Curve(list(U), list(Pq), list(W) if rational else None)
+                    R = op(A, k)
+                    for u in us:
+                        N = spec.basis(U, 2, 2, u)
+                        if rational:
+                            a = sum(n_ * w * q for n_, w, q in zip(N, W, Pq)) / sum(n_ * w for n_, w in zip(N, W))
+                        else:
+                            a = sum(n_ * q for n_, q in zip(N, Pq))
+                        exp = want(a, k)
+                        got = R(u)
+                        if isinstance(got, float) or got != exp:
+                            bad = "(%s)(%s) with s = %s: %r, expected exactly %s" % (oname, u, sname, got, exp)
+                            break
+                except Exception as e:
+                    bad = "%s: %s" % (type(e).__name__, str(e)[:100])
+                out.append(ob("%s:exact-with-scalar-kind[%s,%s,%s]" % (fn, "rat" if rational else "pol", oname, sname), fn, FAILED if bad else PROVED, "B", "concrete", 0.0,
+                              bad or "exact pointwise result for this kind of scalar", dict(kind="c08.intscalar", rational=rational, op=oname, scalar=sname) if bad else None))
+    return out + [{"_stats": dict(cases=len(out))}]
+
+
+task_int_scalars.contract_fn = "curves.BaseCurve.__truediv__"
+
+
 def tasks(tier, seed):
     from ..pyvc.driver import verify
     from ..contracts import curvesv
@@ -439,11 +491,15 @@ def tasks(tier, seed):
     ts.append((task_interval, (0,)))
     ts.append((task_matrix_points, ()))
     ts.append((task_mixed_points, ()))
+    ts.append((task_int_scalars, ()))
     return ts
 
 
 def replay(o):
     w = o["witness"]
+    if w.get("kind") == "c08.intscalar":
+        r = [x for x in task_int_scalars() if "id" in x and x["id"].endswith("[%s,%s,%s]" % ("rat" if w["rational"] else "pol", w["op"], w["scalar"]))][0]
+        return r["status"] == "failed", "exact pointwise result with an int / numpy-int / Fraction scalar", r["detail"]
     if w.get("kind") == "c08.mixed":
         r = [x for x in task_mixed_points() if "id" in x and x["id"].endswith("[%s,%s]" % (w["operands"], w["case"]))][0]
         return r["status"] == "failed", "pointwise product / quotient of a vector-valued curve and a scalar-valued curve", r["detail"]
